@@ -91,8 +91,8 @@ func (sp *Sampler) LeaderNow() int {
 
 // intervals turns the samples into statements "node n was in state X (term t) throughout
 // [T, T2]": consecutive samples with the same state and the same term (a node cannot
-// leave and re-enter a state without a new term), from the end of the first request to
-// the start of the last one.
+// leave and re-enter a state without a new term) and no pause of more than 3 s between
+// them, from the end of the first request to the start of the last one.
 func (sp *Sampler) intervals() []Ev {
 	sp.mu.Lock()
 	defer sp.mu.Unlock()
@@ -105,7 +105,9 @@ func (sp *Sampler) intervals() []Ev {
 		sort.Slice(ss, func(i, j int) bool { return ss[i].a < ss[j].a })
 		for i := 0; i < len(ss); {
 			j := i
-			for j+1 < len(ss) && ss[j+1].state == ss[i].state && ss[j+1].term == ss[i].term {
+			// ... and answered without a pause of more than 3 s (so an interval also says that
+			// the node was responsive all the time)
+			for j+1 < len(ss) && ss[j+1].state == ss[i].state && ss[j+1].term == ss[i].term && ss[j+1].a-ss[j].b <= 3000 {
 				j++
 			}
 			kind := ""
@@ -197,6 +199,29 @@ func (c *Net) proposers() map[uint64]int {
 			}
 		}
 		f.Close()
+	}
+	return res
+}
+
+// snapshots returns the (first, last) pairs of the fsm.snapshot hook records of node id.
+func (c *Net) snapshots(id int) [][2]uint64 {
+	var res [][2]uint64
+	f, err := os.Open(c.tracePath(id))
+	if err != nil {
+		return nil
+	}
+	defer f.Close()
+	sc := bufio.NewScanner(f)
+	sc.Buffer(make([]byte, 1<<20), 1<<20)
+	for sc.Scan() {
+		var rec struct {
+			Point string `json:"point"`
+			First uint64 `json:"first"`
+			Last  uint64 `json:"last"`
+		}
+		if json.Unmarshal(sc.Bytes(), &rec) == nil && rec.Point == "fsm.snapshot" {
+			res = append(res, [2]uint64{rec.First, rec.Last})
+		}
 	}
 	return res
 }
@@ -349,10 +374,14 @@ func (sc *Scenario) Assemble(sp *Sampler) (seq []Ev, aux []Ev, info map[string]i
 	if best == 0 {
 		return nil, nil, info, inconclusive("no irclog could be read")
 	}
+	byIdx := map[uint64]entry{}
+	for _, e := range entries {
+		byIdx[e.idx] = e
+	}
 	for id, es := range logs {
-		for k, e := range es {
-			if k < len(entries) && (entries[k].idx != e.idx || entries[k].typ != e.typ || entries[k].nano != e.nano || entries[k].sess != e.sess) {
-				sc.note("irclog of node %d differs from node %d at position %d", id, best, k)
+		for _, e := range es {
+			if o, ok := byIdx[e.idx]; ok && (o.typ != e.typ || o.nano != e.nano || o.sess != e.sess) {
+				sc.note("irclog of node %d differs from node %d at index %d", id, best, e.idx)
 				break
 			}
 		}
